@@ -648,26 +648,31 @@ theorem float_promotion_witness :
     trigPromotion false (.int 9007199254740993) (.dbl (.fin 9007199254740992)) = true := by
   decide +kernel
 
-/-- F07-lenient: `xs:date(..) = 1` is false and `true() = 1.0e0` is true; XPTY0004 by the specification -/
+/-- (fixed, F07-lenient) `xs:date(..) = 1` and `true() = 1.0e0` raise XPTY0004 as the specification says;
+what remains of F07-lenient: `xs:duration('P1Y') < xs:duration('P13M')` answers (true) where the
+specification says XPTY0004 (xs:duration is not ordered) -/
 theorem lenient_witness :
-    pairGeneral .v2 .eq (.date ⟨5, none⟩) (.int 1) = .ok false ∧ pairSpec .v2 .eq (.date ⟨5, none⟩) (.int 1) = .error .XPTY0004 ∧
-    trigLenient .v2 .eq (.date ⟨5, none⟩) (.int 1) = true ∧
-    pairGeneral .v2 .eq (.bool true) (.dbl (.fin 1)) = .ok true ∧
-    pairSpec .v2 .eq (.bool true) (.dbl (.fin 1)) = .error .XPTY0004 ∧
-    trigLenient .v2 .eq (.bool true) (.dbl (.fin 1)) = true := by decide +kernel
+    pairGeneral .v2 .eq (.date ⟨5, none⟩) (.int 1) = .error .XPTY0004 ∧
+    pairSpec .v2 .eq (.date ⟨5, none⟩) (.int 1) = .error .XPTY0004 ∧
+    pairGeneral .v2 .eq (.bool true) (.dbl (.fin 1)) = .error .XPTY0004 ∧
+    pairGeneral .v2 .lt (.dur 12 0) (.dur 13 0) = .ok true ∧
+    pairSpec .v2 .lt (.dur 12 0) (.dur 13 0) = .error .XPTY0004 ∧
+    trigLenient .v2 .lt (.dur 12 0) (.dur 13 0) = true := by decide +kernel
 
 /-- (fixed) `xs:untypedAtomic('10') < xs:untypedAtomic('9')` is true: both are compared as strings -/
 theorem untyped_order_fixed :
     pairGeneral .v2 .lt (.ua [49, 48]) (.ua [57]) = .ok true ∧
     pairSpec .v2 .lt (.ua [49, 48]) (.ua [57]) = .ok true := by decide +kernel
 
-/-- F07-untyped: `xs:untypedAtomic('abc') = 1.5` lets decimal.InvalidOperation escape where the
-specification says FORG0001; `xs:untypedAtomic('0.10000000000000000001') = 0.1` is false (exact)
-where both sides become the same xs:double -/
-theorem untyped_decimal_witness :
-    pairGeneral .v2 .eq (.ua [97, 98, 99]) (.dec (3 / 2)) = .error (.other .invalidOperation) ∧
+/-- (fixed) `xs:untypedAtomic('abc') = 1.5` raises FORG0001; what remains of F07-untyped:
+`xs:QName('a') = xs:untypedAtomic(' a ')` is false (the lexical forms are compared as strings), the
+specification casts the untyped value (true in 3.1) -/
+theorem untyped_witness :
+    pairGeneral .v2 .eq (.ua [97, 98, 99]) (.dec (3 / 2)) = .error .FORG0001 ∧
     pairSpec .v2 .eq (.ua [97, 98, 99]) (.dec (3 / 2)) = .error .FORG0001 ∧
-    trigUntyped .eq (.ua [97, 98, 99]) (.dec (3 / 2)) = true := by decide +kernel
+    pairGeneral .v31 .eq (.qn [] [] [97]) (.ua [32, 97, 32]) = .ok false ∧
+    pairSpec .v31 .eq (.qn [] [] [97]) (.ua [32, 97, 32]) = .ok true ∧
+    trigUntypedQN .v31 (.qn [] [] [97]) (.ua [32, 97, 32]) = true := by decide +kernel
 
 /-- F07-compat: with the XPath 1.0 parser `'1' = 1` is false and `'abc' < 1` raises FORG0001;
 XPath 1.0 §3.4 says true resp. false -/
